@@ -38,8 +38,9 @@ func (f *FileReaderImpl) CollectPythonFiles(paths []string, recursive bool, incl
 			}
 			files = append(files, dirFiles...)
 		} else {
-			// Process single file
-			if f.IsValidPythonFile(path) && f.shouldIncludeFile(path, includePatterns, excludePatterns) {
+			// Process single file (patterns see it the way they see a file at the
+			// top of a walked directory: by its name)
+			if f.IsValidPythonFile(path) && f.shouldIncludeFile(filepath.Base(path), includePatterns, excludePatterns) {
 				files = append(files, path)
 			}
 		}
@@ -105,7 +106,14 @@ func (f *FileReaderImpl) collectFromDirectory(dirPath string, recursive bool, in
 
 		// Check if it's a Python file
 		if !info.IsDir() && f.IsValidPythonFile(path) {
-			if f.shouldIncludeFile(path, includePatterns, excludePatterns) {
+			// Patterns are matched against the path relative to the directory being
+			// walked, so the result does not depend on how that directory was spelled
+			// (".", "dir", "dir/", an absolute path, ...)
+			relPath, relErr := filepath.Rel(dirPath, path)
+			if relErr != nil {
+				relPath = path
+			}
+			if f.shouldIncludeFile(filepath.ToSlash(relPath), includePatterns, excludePatterns) {
 				files = append(files, path)
 			}
 		}
@@ -124,7 +132,7 @@ func (f *FileReaderImpl) collectFromDirectory(dirPath string, recursive bool, in
 func (f *FileReaderImpl) shouldIncludeFile(path string, includePatterns, excludePatterns []string) bool {
 	// Check exclude patterns first
 	for _, pattern := range excludePatterns {
-		if matched, _ := doublestar.Match(pattern, path); matched {
+		if f.matchesPattern(pattern, path) {
 			return false
 		}
 	}
@@ -136,12 +144,24 @@ func (f *FileReaderImpl) shouldIncludeFile(path string, includePatterns, exclude
 
 	// Check include patterns
 	for _, pattern := range includePatterns {
-		if matched, _ := doublestar.Match(pattern, path); matched {
+		if f.matchesPattern(pattern, path) {
 			return true
 		}
 	}
 
 	return false
+}
+
+// matchesPattern matches one include/exclude pattern. A pattern without a
+// slash (such as "test_*.py") describes a file name and applies at any depth;
+// a pattern with a slash is matched against the whole path.
+func (f *FileReaderImpl) matchesPattern(pattern, path string) bool {
+	if !strings.Contains(pattern, "/") {
+		matched, _ := doublestar.Match(pattern, filepath.Base(path))
+		return matched
+	}
+	matched, _ := doublestar.Match(pattern, path)
+	return matched
 }
 
 // shouldSkipDirectory checks if a directory should be skipped entirely
